@@ -74,8 +74,9 @@ type Ackqueue struct {
 	head  int64
 	tail  int64
 
-	ping AckMsg
-	ring []AckMsg
+	// PINGREQ messages carry no packet ID; they are acknowledged in the order sent.
+	pings []AckMsg
+	ring  []AckMsg
 	emap map[uint16]int64
 
 	ackdone []AckMsg
@@ -123,13 +124,14 @@ func (aq *Ackqueue) Wait(msg message.Message, onComplete interface{}) error {
 		aq.insert(msg.PacketID(), msg, onComplete)
 
 	case *message.PingreqMessage:
-		aq.ping = AckMsg{
+		ping := AckMsg{
 			Mtype:      message.PINGREQ,
 			State:      message.RESERVED,
 			Msgbuf:     make([]byte, 2),
 			OnComplete: onComplete,
 		}
-		msg.Encode(aq.ping.Msgbuf)
+		msg.Encode(ping.Msgbuf)
+		aq.pings = append(aq.pings, ping)
 
 	default:
 		return errWaitMessage
@@ -162,10 +164,14 @@ func (aq *Ackqueue) Ack(msg message.Message) error {
 		}
 
 	case message.PINGRESP:
-		if aq.ping.Mtype == message.PINGREQ {
-			aq.ping.State = message.PINGRESP
-			aq.ping.Ackbuf = make([]byte, 2)
-			msg.Encode(aq.ping.Ackbuf)
+		// acknowledges the oldest PINGREQ still waiting
+		for i := range aq.pings {
+			if aq.pings[i].State != message.PINGRESP {
+				aq.pings[i].State = message.PINGRESP
+				aq.pings[i].Ackbuf = make([]byte, 2)
+				msg.Encode(aq.pings[i].Ackbuf)
+				break
+			}
 		}
 
 	default:
@@ -182,9 +188,9 @@ func (aq *Ackqueue) Acked() []AckMsg {
 
 	aq.ackdone = aq.ackdone[0:0]
 
-	if aq.ping.State == message.PINGRESP {
-		aq.ackdone = append(aq.ackdone, aq.ping)
-		aq.ping = AckMsg{}
+	for len(aq.pings) > 0 && aq.pings[0].State == message.PINGRESP {
+		aq.ackdone = append(aq.ackdone, aq.pings[0])
+		aq.pings = aq.pings[1:]
 	}
 
 FORNOTEMPTY:
